@@ -80,7 +80,7 @@ fn the_primitive_fn<S: TheCompatible>(
                     if input.state().is_current_font_command(*tag) {
                         font_to_tokens(the_token, input, input.vm().current_font());
                     } else {
-                        todo!("should return an error")
+                        cannot_use_after_the(the_token, token, input)?;
                     }
                 }
                 None
@@ -90,12 +90,29 @@ fn the_primitive_fn<S: TheCompatible>(
                     | command::Command::Execution(..)
                     | command::Command::CharacterTokenAlias(..),
                 ) => {
-                    todo!("should return an error")
+                    cannot_use_after_the(the_token, token, input)?;
                 }
             }
         }
-        _ => todo!("should return an error"),
+        _ => {
+            cannot_use_after_the(the_token, token, input)?;
+        }
     };
+    Ok(())
+}
+
+/// TeX.2021.428: "You can't use `X' after \the". The error is recoverable:
+/// TeX continues as if the value 0 had been scanned, so `\the` yields `0`.
+fn cannot_use_after_the<S: TheCompatible>(
+    the_token: token::Token,
+    token: token::Token,
+    input: &mut vm::ExpansionInput<S>,
+) -> txl::Result<()> {
+    input.error(error::SimpleTokenError::new(
+        token,
+        r"this token cannot be used after \the: expected a variable, character, math character or font command",
+    ))?;
+    write(input.expansions_mut(), the_token, 0);
     Ok(())
 }
 
